@@ -86,6 +86,8 @@ func myRandBinTrs(rd *core.Rand, types []uint16, allowFail bool) []tr {
 func runMysql(r *core.Run) {
 	rd := r.Rand
 	th := r.Thorough()
+	runMyColDef(r)
+	runMyExecute(r)
 
 	// ---- 1. packet relay: single packets of every small size and around the boundaries ----
 	lens := []int{1, 2, 3, 4, 5, 250, 251, 255, 256, 65535, 65536}
@@ -321,6 +323,127 @@ func runMysql(r *core.Run) {
 		ts := myRandBinTrs(rd, types, false)
 		r.Begin(fmt.Sprintf("my-malbinrow-%s-%s", showNats(types), core.Hex(enc)), true, "stream:malformed", "my:malformed-binrow")
 		r.Do(fmt.Sprintf("C12.my.binrow %s %s %s", showNats(types), showTrs(ts), core.Hex(enc)))
+	}
+}
+
+// column definitions rewritten for a typed column: still a well-formed ColumnDefinition41 packet of the same
+// length, names untouched, type/charset/length/flags as configured for the declared type
+func runMyColDef(r *core.Run) {
+	rd := r.Rand
+	declared := map[string]struct {
+		typ     byte
+		charset uint16
+		length  uint32
+	}{"int32": {3, 63, 9}, "int64": {8, 63, 20}, "str": {254, 8, 255}, "bytes": {252, 63, 65535}}
+	for i := 0; i < r.N(200, 5000); i++ {
+		dt := core.Pick(rd, []string{"int32", "int64", "str", "bytes", "none"})
+		table, name := []byte("t"), []byte("c")
+		if rd.Chance(15) {
+			name = []byte("other") // a column without a setting
+		}
+		schema := rd.Bytes(core.Pick(rd, []int{0, 3, 250, 251, 300}))
+		orgTable := rd.Bytes(rd.Intn(6))
+		orgName := rd.Bytes(rd.Intn(6))
+		charset := uint16(rd.Intn(300))
+		length := uint32(rd.U64())
+		origType := core.Pick(rd, []byte{252, 253, 254, 251, 250, 249, 15})
+		flags := uint16(rd.U64())
+		decimals := byte(rd.Intn(32))
+		payload := myColDef(schema, table, orgTable, name, orgName, charset, length, origType, flags, decimals)
+		seq := rd.Intn(256)
+		r.Begin(fmt.Sprintf("my-coldef-%s-%s", dt, core.Hex(payload)), true, "stream:structured", "my:coldef", "type:"+dt)
+		got := r.Impl(fmt.Sprintf("C12.my.coldef %s %d %s", dt, seq, core.Hex(payload)))
+		sent := myEncodePayload(seq, payload)
+		want := sent
+		if d, ok := declared[dt]; ok && string(name) == "c" {
+			nf := flags
+			if dt != "bytes" {
+				nf = flags &^ 16 // BlobFlag removed for int32/int64/str
+			}
+			want = myEncodePayload(seq, myColDef(schema, table, orgTable, name, orgName, d.charset, d.length, d.typ, nf, 0))
+		}
+		r.Check(got == core.OkHex(want), "my-coldef-wellformed", fmt.Sprintf("column definition for data_type %s is not the well-formed definition with the declared type: got %.120s want %.120s", dt, got, core.Hex(want)))
+	}
+}
+
+// COM_STMT_EXECUTE: parameters rewritten by OnBind stay a well-formed execute packet: header fields and NULL
+// bitmap untouched, NULL parameters carry no value bytes, changed values become length-encoded blobs,
+// unchanged values keep their bytes
+func runMyExecute(r *core.Run) {
+	rd := r.Rand
+	strTypes := []byte{253, 254, 252, 15, 251}
+	for i := 0; i < r.N(300, 10000); i++ {
+		n := 1 + rd.Intn(9)
+		if rd.Chance(10) {
+			n = core.Pick(rd, []int{8, 9, 16, 17})
+		}
+		nullTyped := rd.Chance(30) // NULL parameters keep their declared type instead of MYSQL_TYPE_NULL
+		types := make([][2]byte, n)
+		vals := Row{}
+		ts := make([]tr, n)
+		class := "my-execute-wellformed"
+		for j := 0; j < n; j++ {
+			switch rd.Intn(4) {
+			case 0: // NULL
+				vals = append(vals, nil)
+				types[j] = [2]byte{6, 0}
+				if nullTyped {
+					types[j] = [2]byte{core.Pick(rd, []byte{253, 3, 8, 252}), 0}
+					class = "my-execute-typed-null"
+				}
+				ts[j] = tr{kind: 'k'}
+			case 1: // integer, kept
+				t := core.Pick(rd, []byte{1, 2, 3, 8})
+				vals = append(vals, rd.Bytes(myFixedWidth(int(t))))
+				types[j] = [2]byte{t, 0}
+				ts[j] = tr{kind: 'k'}
+			default: // string-like, possibly transformed
+				vals = append(vals, myRandValue(rd, false))
+				types[j] = [2]byte{core.Pick(rd, strTypes), 0}
+				ts[j] = randTr(rd, false)
+			}
+		}
+		changed := false
+		want := Row{}
+		wtypes := make([][2]byte, n)
+		for j := range vals {
+			wtypes[j] = types[j]
+			if vals[j] == nil {
+				want = append(want, nil)
+				continue
+			}
+			d, _ := ts[j].apply(vals[j])
+			if d == nil {
+				d = []byte{}
+			}
+			if myFixedWidth(int(types[j][0])) < 0 && !bytes.Equal(d, vals[j]) {
+				wtypes[j][0] = 252 // a value that was changed travels as a blob
+				changed = true
+			}
+			want = append(want, d)
+		}
+		_ = changed
+		payload := myExecute(uint32(rd.U64()), byte(rd.Intn(2)), types, vals)
+		seq := rd.Intn(256)
+		r.Begin(fmt.Sprintf("my-execute-%s-%s", core.Hex(payload), showTrs(ts)), true, "stream:structured", "my:execute", fmt.Sprintf("params:%d", n))
+		got := r.Impl(fmt.Sprintf("C12.my.execute %d %s %d %s", n, showTrs(ts), seq, core.Hex(payload)))
+		if !r.Check(len(got) > 3 && got[:3] == "ok ", class, fmt.Sprintf("COM_STMT_EXECUTE with %d parameters (types %v, values %s) is not rewritten: %s", n, types, showRow(vals), got)) {
+			continue
+		}
+		out := core.UnHex(got[3:])
+		wantPayload := myExecute(uint32(payload[1])|uint32(payload[2])<<8|uint32(payload[3])<<16|uint32(payload[4])<<24, payload[5], wtypes, want)
+		// SetParameters rewrites the unsigned flag of LONG/LONGLONG parameters from the value's sign: ignore flag bytes of those
+		mask := func(b []byte) []byte {
+			c := append([]byte{}, b...)
+			off := 4 + 10 + (n+7)/8 + 1
+			for j := 0; j < n; j++ {
+				if off+2*j+1 < len(c) && (wtypes[j][0] == 3 || wtypes[j][0] == 8) {
+					c[off+2*j+1] = 0
+				}
+			}
+			return c
+		}
+		r.Check(bytes.Equal(mask(out), mask(myEncodePayload(seq, wantPayload))), class, fmt.Sprintf("rewritten COM_STMT_EXECUTE is not the well-formed packet with the transformed parameters: types=%v vals=%s tr=%s got=%x want=%x", types, showRow(vals), showTrs(ts), out, myEncodePayload(seq, wantPayload)))
 	}
 }
 
